@@ -86,13 +86,31 @@ func runSetSweep(a *args) {
 						ns++
 						var e error
 						if p, msg := safely(func() { e = o.Set(m, x) }); p {
-							col.violate(Violation{Property: prop, Kind: "a call panicked", Version: vn, Input: map[string]interface{}{"abv": m, "value_bytes": []byte(x)}, Expected: "no panic", Observed: msg})
+							if prop == "C09" {
+								col.violate(Violation{Property: prop, Kind: "a call panicked", Version: vn, Input: map[string]interface{}{"abv": m, "value_bytes": []byte(x)}, Expected: "no panic", Observed: msg})
+							}
 							return
 						}
-						if (e == nil) != legal[m][x] {
+						if (e == nil) != legal[m][x] && prop == "C09" {
 							col.violate(Violation{Property: prop, Kind: "Set accepts/refuses differently from the metric's value set (all 1- and 2-byte values)", Version: vn,
 								Input: map[string]interface{}{"abv": m, "value": x, "value_bytes": []int{int(x[0]), int(x[len(x)-1])}}, Expected: map[string]bool{"accepted": legal[m][x]}, Observed: v.ErrKind(e)})
-						} else if e != nil && !o.Same(zero) {
+						} else if e == nil && prop == "C07" {
+							// whatever C09 says about the pair: a Set that reports success makes Get(m) return v and changes nothing else
+							okFrame := true
+							for _, k := range ord {
+								g, ge := o.Get(k)
+								z, _ := zero.Get(k)
+								if k == m {
+									okFrame = okFrame && ge == nil && g == x
+								} else {
+									okFrame = okFrame && g == z
+								}
+							}
+							if !okFrame {
+								col.violate(Violation{Property: prop, Kind: "Set reported success but Get(m) != v or another metric changed (all 1- and 2-byte values)", Version: vn,
+									Input: map[string]interface{}{"abv": m, "value": x, "value_bytes": []int{int(x[0]), int(x[len(x)-1])}}, Expected: map[string]string{m: x, "others": "unchanged"}, Observed: o.Vector()})
+							}
+						} else if e != nil && !o.Same(zero) && prop == "C07" {
 							col.violate(Violation{Property: prop, Kind: "a failed Set changed the object", Version: vn, Input: map[string]interface{}{"abv": m, "value_bytes": []byte(x)}, Expected: "unchanged", Observed: o.Vector()})
 						}
 					}
@@ -120,6 +138,10 @@ func runSetSweep(a *args) {
 				rng := rand.New(rand.NewSource(a.Seed*7919 + int64(w)))
 				var n, ns int64
 				bad := func(kind string, asg map[string]string, m, x string, exp, obs interface{}) {
+					if !setsweepMine(prop, kind) {
+						col.count("left to the other property: "+kind, 1)
+						return
+					}
 					cp := map[string]string{}
 					for k, y := range asg {
 						cp[k] = y
@@ -195,6 +217,15 @@ func runSetSweep(a *args) {
 								ns++
 								if e := o.Set(m, x); e == nil {
 									bad("Set accepts a value that is not a value of the metric", asg, m, x, "error", "nil")
+									for _, k := range ord {
+										want := asg[k]
+										if k == m {
+											want = x
+										}
+										if g, _ := o.Get(k); g != want {
+											bad("Set reported success but Get(m) != v or another metric changed", asg, m, x, map[string]string{k: want}, map[string]interface{}{k: g})
+										}
+									}
 								} else if !o.Same(base) {
 									bad("a failed Set changed the object", asg, m, x, "unchanged", o.Vector())
 								}
@@ -223,6 +254,16 @@ func runSetSweep(a *args) {
 	col.count("Set calls with full frame comparison", sets)
 	col.sample(map[string]interface{}{"objects": total, "set_calls": sets})
 	col.write(a.Out)
+}
+
+// which finding belongs to which property: C09 = Set accepts exactly the metric's values, nothing panics, every Get
+// of a reachable object is a legal value; C07 = what a successful / failed Set does to the object, and ==
+func setsweepMine(prop, kind string) bool {
+	c09 := map[string]bool{"Set refuses a legal value": true, "Set accepts a value that is not a value of the metric": true, "a call panicked": true}
+	if prop == "C09" {
+		return c09[kind]
+	}
+	return !c09[kind]
 }
 
 func init() { modes["setsweep"] = runSetSweep }
